@@ -289,7 +289,7 @@ func (db *Database) Ensure(sch *schema.Schema) {
 				// add newly created indexes
 				ti := meta.GetRoInfo(sch.Table) // not actually read-only
 				i := len(ti.Indexes) - len(ovs)
-				copy(ti.Indexes[i:], ovs)
+				installBuilt(ti.Indexes, i, ovs)
 			}
 			state.Meta = meta
 		})
@@ -421,6 +421,21 @@ func (db *Database) buildIndexes(table string,
 	return ovs
 }
 
+// installBuilt replaces the (empty) overlays from position i
+// with the ones built by buildIndexes.
+// The number of layers must match the table's existing indexes NOW,
+// not when buildIndexes took its snapshot -
+// merges of previously committed transactions may have completed since then.
+func installBuilt(indexes []*index.Overlay, i int, ovs []*index.Overlay) {
+	nlayers := 1
+	if i > 0 {
+		nlayers = indexes[0].Nlayers()
+	}
+	for j, ov := range ovs {
+		indexes[i+j] = ov.WithNlayers(nlayers)
+	}
+}
+
 // MakeLess handles _lower! but not rules.
 // It is used for indexes (which don't support rules).
 func MakeLess(store *stor.Stor, is *ixkey.Spec) func(x, y uint64) bool {
@@ -506,7 +521,7 @@ func (db *Database) AlterCreate(sch *schema.Schema) {
 				// add newly created indexes
 				ti := meta.GetRoInfo(sch.Table) // not really read-only
 				i := len(ti.Indexes) - len(ovs)
-				copy(ti.Indexes[i:], ovs)
+				installBuilt(ti.Indexes, i, ovs)
 			}
 			state.Meta = meta
 		})
